@@ -108,7 +108,8 @@ Mutants(P) ==
     \cup (IF P.seq > 1 THEN { [P EXCEPT !.seq = @ - 1] } ELSE {})
 
 
-BadAcks(P) == IF P.proto = "v1" THEN { <<"ok">>, <<"err">>, <<"bad">> }
+\* "hashok"/"hasherr": the 32-byte SHA-256 digest of the real acknowledgement submitted as if it were the acknowledgement
+BadAcks(P) == IF P.proto = "v1" THEN { <<"ok">>, <<"err">>, <<"bad">>, <<"hashok">>, <<"hasherr">> }
               ELSE { <<"ok">>, <<"SENTINEL">>, <<"ok","ok">>, <<"bad">>, [i \in DOMAIN P.data |-> "ok"], HonestV2Ack(P),
                      [i \in DOMAIN P.data |-> HonestV2Ack(P)[Len(P.data) + 1 - i]] }     \* the honest list reversed
 
